@@ -111,6 +111,11 @@ def catalogue():
     cat.append(("mapd", ("int",), lambda a: ["map", a[0], [[L(1), L(10)], [L(-7), L(70)]], L(0)]))
     cat.append(("fillround", ("int",), lambda a: ["round", ["fill_null", a[0], L(0.26)], L(1)]))
     cat.append(("coalround", ("int", "float"), lambda a: ["round", ["coalesce", a[0], a[1], L(2.74)], L(1)]))
+    # integers beyond 2**53 (not representable as floats)
+    for big in (2**53 + 1, 2**53 + 3, -(2**53) - 5):
+        cat.append((f"floordiv_big", ("int",), lambda a, big=big: ["floordiv", L(big), a[0]]))
+        cat.append((f"mod_big", ("int",), lambda a, big=big: ["mod", L(big), a[0]]))
+        cat.append((f"mul_div_big", ("int",), lambda a, big=big: ["floordiv", ["add", L(big), a[0]], L(3)]))
     cat.append(("casemixstr", ("bool", "int"), lambda a: ["cast", ["case", [[a[0], L(1.5)]], a[1]], "str"]))
     cat.append(("casemixdiv", ("bool", "int"), lambda a: ["truediv", ["case", [[a[0], L(0.5)]], a[1]], L(2)]))
     cat.append(("mapdn", ("int",), lambda a: ["map", a[0], [[L(1), L(10)]], L(None)]))
